@@ -137,6 +137,18 @@ def run(tier):
         jobs.add(g, make_cfg(chars_of(g, ctexts)), ctexts, start='s')
         cases.append(default_case(src, ctexts, start='s'))
         allg.append(g)
+    # the cut is part of the core language: a slice of C05's placement universe (a cut at every position of every sequence of
+    # choice / optional / closure / join skeletons), with the texts that fail right after each cut
+    from .c05 import universe as cut_universe
+    cutitems = cut_universe('quick')
+    kcut = 6 if tier == 'quick' else 2
+    ncut = 0
+    for it in cutitems[seed % kcut::kcut]:
+        ts = [t for t in it['texts'] if len(t) <= 4][:: (2 if tier == 'quick' else 1)]
+        jobs.add(it['g'], make_cfg(chars_of(it['g'], ts), nameguard=False), ts, start='s')
+        cases.append(default_case(to_ebnf(it['g']), ts, start='s', settings={'nameguard': False}))
+        allg.append(it['g'])
+        ncut += 1
     r, spec = run_oracle(jobs, timeout=3000)
     ck.add_tlc(r, 'PegSemBatch')
     impl = run_impl(cases)
@@ -181,9 +193,9 @@ def run(tier):
     ck.cov['rule'] = ('grammars: every expression with <=1 operator node over 9 leaves, '
                       + ('every' if tier == 'thorough' else 'every 9th') + ' expression with 2 operator nodes, plus '
                       f'{len(rnds)} seeded random grammars (depth<=3-4, full core language); texts: all strings over '
-                      '{a,b,space} up to length 3 (+8 longer; up to 5 for one-rule grammars in thorough); '
+                      '{a,b,space} up to length 3 (+8 longer; up to 5 for one-rule grammars in thorough); a slice of the cut-placement universe of C05; '
                       'non-trivial = accepted case on a specified shape with a distinct (grammar, AST)')
-    ck.notes.update({'grammars': len(gs) + len(rnds), 'exhaustive_grammars': nexh, 'random_grammars': len(rnds),
+    ck.notes.update({'cut_placement_grammars': ncut, 'grammars': len(gs) + len(rnds), 'exhaustive_grammars': nexh, 'random_grammars': len(rnds),
                      'value_checked_cases': nvalue, 'jobs': len(cases)})
     ck.assumptions += ['Python re is trusted for catalogue patterns', 'shapes listed in spec/UNSPECIFIED.md: accept/reject and '
                        'end position are checked, the AST value is not']
